@@ -14,19 +14,15 @@ func (v *Vue) evalVShow(ctx VueContext, n *html.Node) error {
 		return nil
 	}
 
-	// Evaluate the expression using the same approach as v-if
-	val, err := v.exprEval.Eval(vShowExpr, ctx.stack.EnvMap())
+	// The condition means what it means in v-if: one evaluation for both, with the same
+	// fallbacks (a path the evaluator cannot read, the negation of an undefined value)
+	shown, err := v.evalConditionExpr(ctx, vShowExpr)
 	if err != nil {
-		// Fall back to stack resolution for simple variable references
-		var ok bool
-		val, ok = ctx.stack.Resolve(vShowExpr)
-		if !ok {
-			val = false
-		}
+		return err
 	}
 
-	// Set or remove display:none based on condition
-	if !helpers.IsTruthy(val) {
+	// Set display:none based on condition
+	if !shown {
 		v.setStyleProperty(n, "display", "none")
 	}
 
